@@ -138,4 +138,30 @@ example : durationOfUnits ⟨1, 500000000000000⟩ nsDay = some 129600000000000 
 example : durationOfUnits ⟨0, 100000⟩ nsSecond = none := by decide      -- 0.0000000001 s: sub-nanosecond
 example : durationOfUnits ⟨99999999999999999999 % 2 ^ 64, 0⟩ nsDay = none := by decide
 
+/-- a time of day that is read has fields in range: no `25:61:61` gets through -/
+theorem tod_fields_in_range (ts rest : List Item) (t : Tod) (h : daytime ts = some (t, rest)) :
+    t.h < 24 ∧ t.m < 60 ∧ t.s < 60 := by
+  unfold daytime at h
+  simp only [bind, StateT.bind, Option.bind_eq_some_iff] at h
+  obtain ⟨a, _, b, _, c, _, d, _, e, _, h⟩ := h
+  split at h
+  · rename_i hc
+    simp only [pure, StateT.pure, Option.some.injEq, Prod.mk.injEq] at h
+    obtain ⟨rfl, _⟩ := h
+    exact ⟨hc.2.2.2.2.1, hc.2.2.2.2.2.1, hc.2.2.2.2.2.2⟩
+  · simp [P.fail] at h
+
+/-- a date that is read is a calendar date (month 1..12, day valid for the month incl. leap years, year ≤ 9999) -/
+theorem date_is_calendar_date (ts rest : List Item) (d : Ymd) (h : dateLiteral ts = some (d, rest)) :
+    1 ≤ d.m ∧ d.m ≤ 12 ∧ d.y ≤ 9999 ∧ 1 ≤ d.d ∧ d.d ≤ daysInMonth d.y d.m := by
+  unfold dateLiteral at h
+  simp only [bind, StateT.bind, Option.bind_eq_some_iff] at h
+  obtain ⟨a, _, b, _, c, _, e, _, f, _, h⟩ := h
+  split at h
+  · rename_i hc
+    simp only [pure, StateT.pure, Option.some.injEq, Prod.mk.injEq] at h
+    obtain ⟨rfl, _⟩ := h
+    exact hc
+  · simp [P.fail] at h
+
 end C09
